@@ -54,6 +54,18 @@ fn check(doc: &str) -> Option<String> {
         let first = rendered.lines().next().unwrap_or("").to_owned();
         return Some(format!("rendered `{}` but span start {} is {}", first, span.start, want));
     }
+    // the caret line: gutter, `|`, column + 1 blanks, then the first `^`
+    let lines: Vec<&str> = rendered.split('\n').collect();
+    let gutter = (l + 1).to_string().len();
+    match lines.get(3) {
+        Some(caret) => {
+            let want_caret = format!("{}|{}^", " ".repeat(gutter + 1), " ".repeat(c + 1));
+            if !caret.starts_with(&want_caret) || caret[want_caret.len()..].chars().any(|ch| ch != '^') {
+                return Some(format!("caret line `{}` does not put the first caret under column {}", caret, c + 1));
+            }
+        }
+        None => return Some("rendering has no caret line".to_owned()),
+    }
     None
 }
 
